@@ -38,6 +38,9 @@ func zzSession(script *zzverif.Script) *Shell {
 	zzverif.StdinHook = func(buf []byte) (int, error) {
 		return copy(buf, []byte("\x1b[1;1R")), nil
 	}
+	if !zzverif.Symbolic() {
+		zzverif.NativeTTY()
+	}
 	return rl
 }
 
@@ -47,6 +50,11 @@ func zzKeysFor(rl *Shell, km string, cmd string) string {
 	best := ""
 	for seq, bind := range rl.Config.Binds[km] {
 		if bind.Action != cmd || bind.Macro || seq == "" {
+			continue
+		}
+		// ESC-prefixed and meta sequences collide with the converted self-insert binds of
+		// 0x80-0xFF in the dispatcher (a C03 finding); steps use sequences free of that.
+		if zzHasEscOrMeta(seq) {
 			continue
 		}
 		if best == "" || len(seq) < len(best) || (len(seq) == len(best) && seq < best) {
@@ -64,6 +72,15 @@ func zzKeysFor(rl *Shell, km string, cmd string) string {
 		}
 	}
 	return ""
+}
+
+func zzHasEscOrMeta(seq string) bool {
+	for _, r := range seq {
+		if r == 0x1b || r >= 0x80 {
+			return true
+		}
+	}
+	return false
 }
 
 // zzArgKeys are the keys that enter a numeric argument in the given main keymap.
@@ -112,6 +129,7 @@ func ZZ_Step() {
 	arg := zzverif.Param("arg")
 	prefix := zzverif.Param("prefix")
 	pure := zzverif.Param("pure") == "1"
+	inv := zzverif.Param("inv") != "0"
 
 	buf := zzBuffer("b", n)
 	script := &zzverif.Script{}
@@ -148,14 +166,17 @@ func ZZ_Step() {
 				inCmd = false
 			}})
 			script.Chunks = [][]byte{[]byte(prefix + zzArgKeys(mode, arg) + keys)}
+			zzverif.Note("keys", prefix+zzArgKeys(mode, arg)+keys)
 			return
 		}
 		wait++
 		// invariants at every input wait
 		pos := rl.cursor.Pos()
 		length := rl.line.Len()
-		zzverif.Assert(pos >= 0 && pos <= length, "cursor-in-buffer")
-		if rl.selection.Active() {
+		if inv {
+			zzverif.Assert(pos >= 0 && pos <= length, "cursor-in-buffer")
+		}
+		if inv && rl.selection.Active() {
 			bpos, epos := rl.selection.Pos()
 			zzverif.Assert(bpos >= 0 && bpos <= length && epos >= 0 && epos <= length, "selection-in-buffer")
 		}
@@ -172,8 +193,14 @@ func ZZ_Step() {
 		if ranCmd {
 			zzverif.Reach("command-ran")
 		}
-		if rl.Keymap.Main() == keymap.ViCommand && !inCmd && length > 0 && !rl.cursor.OnEmptyLine() {
+		if inv && rl.Keymap.Main() == keymap.ViCommand && !inCmd && length > 0 && !rl.cursor.OnEmptyLine() {
 			zzverif.Assert(pos < length, "vi-command-cursor-on-char")
+		}
+		zzverif.Note("after", string(*rl.line))
+		if ranCmd {
+			zzverif.Note("ran", "yes")
+		} else {
+			zzverif.Note("ran", "no")
 		}
 		if pure && !inCmd {
 			zzverif.Assert(zzSameRunes(before, *rl.line), "movement-keeps-buffer")
